@@ -70,7 +70,12 @@ impl<const N: usize> AntiAmplifier<N> {
 
     pub fn on_sent(&self, amount: usize) {
         if self.state.load(Ordering::Acquire) == Self::NORMAL {
-            self.credit.fetch_sub(amount, Ordering::AcqRel);
+            // never wrap around into an effectively unlimited allowance
+            _ = self
+                .credit
+                .fetch_update(Ordering::AcqRel, Ordering::Acquire, |credit| {
+                    Some(credit.saturating_sub(amount))
+                });
         }
     }
 
